@@ -62,6 +62,15 @@ func directedCases(rng *rand.Rand) []*tcase {
 				fmt.Fprintf(&rb, "%d,%d,%d\n", 10*(i+1), k, v)
 			}
 		}
+		// two more R rows on which k and v agree (elsewhere they differ)
+		for _, kv := range []int{2, 1} {
+			if format == "json" {
+				fmt.Fprintf(&rb, "{\"id\":%d,\"k\":%d,\"v\":%d}\n", 10*(nr+1), kv, kv)
+			} else {
+				fmt.Fprintf(&rb, "%d,%d,%d\n", 10*(nr+1), kv, kv)
+			}
+			nr++
+		}
 		T, R := "t."+format, "r."+format
 		files := map[string][]byte{T: []byte(tb.String()), R: []byte(rb.String())}
 		lit := num(1 + rng.Intn(2))
@@ -140,6 +149,36 @@ func directedCases(rng *rand.Rand) []*tcase {
 			{"subquery-expression-control", "1col-distinct", "SELECT o.id AS o0, (SELECT DISTINCT t.a FROM " + T + " t WHERE t.k = o.k) AS o1 FROM " + R + " o"},
 			{"subquery-expression-control", "1col-in", "SELECT o.id AS o0 FROM " + R + " o WHERE o.k IN (SELECT t.k FROM " + T + " t WHERE t.a = " + num(1) + ")"},
 			{"subquery-expression-control", "1col-index", "SELECT o.id AS o0, (SELECT t.id FROM " + T + " t WHERE t.k = o.k)[0] AS o1 FROM " + R + " o"},
+		}
+		// shared-key-column: one column of one join side equated with two or three different
+		// columns / expressions of the other side (in ON and/or WHERE); the other side's expressions
+		// agree on some rows and differ on others, so every equality matters.
+		sel2 := "SELECT a.id AS o0, b.id AS o1 FROM " + T + " a JOIN " + R + " b ON "
+		sk := []dq{
+			{"shared-key-column", "left-on-where", sel2 + "a.a = b.k WHERE a.a = b.v"},
+			{"shared-key-column", "left-on-on", sel2 + "a.a = b.k AND a.a = b.v"},
+			{"shared-key-column", "left-on-on-swapped", sel2 + "a.a = b.k AND b.v = a.a"},
+			{"shared-key-column", "left-swapped-first", sel2 + "b.k = a.b AND a.b = b.v"},
+			{"shared-key-column", "left-where-where", "SELECT a.id AS o0, b.id AS o1 FROM " + T + " a JOIN " + R + " b WHERE a.x = b.k AND a.x = b.v"},
+			{"shared-key-column", "left-comma", "SELECT a.id AS o0, b.id AS o1 FROM " + T + " a, " + R + " b WHERE a.a = b.k AND b.v = a.a"},
+			{"shared-key-column", "left-three", sel2 + "a.a = b.k AND a.a = b.v WHERE a.a + " + num(9) + " = b.id"},
+			{"shared-key-column", "left-expression", sel2 + "a.b = b.k AND a.b = b.v + " + num(1)},
+			{"shared-key-column", "left-with-other-key", sel2 + "a.a = b.k AND a.x = b.v AND a.a = b.v"},
+			{"shared-key-column", "left-with-filter", sel2 + "a.a = b.k AND a.x >= " + lit + " WHERE b.v = a.a AND b.id > " + num(0)},
+			{"shared-key-column", "right-on-where", sel2 + "a.a = b.k WHERE a.b = b.k"},
+			{"shared-key-column", "right-on-on", sel2 + "a.a = b.k AND a.x = b.k"},
+			{"shared-key-column", "right-on-on-swapped", sel2 + "b.v = a.a AND a.b = b.v"},
+			{"shared-key-column", "right-three", sel2 + "a.a = b.k AND a.b = b.k AND b.k = a.x"},
+			{"shared-key-column", "right-comma", "SELECT a.id AS o0, b.id AS o1 FROM " + T + " a, " + R + " b WHERE b.v = a.a AND b.v = a.x"},
+			{"shared-key-column", "three-tables", "SELECT a.id AS o0, b.id AS o1, c.id AS o2 FROM " + T + " a JOIN " + R + " b ON a.a = b.k JOIN " + R + " c ON a.a = c.k AND a.a = c.v WHERE a.a = b.v"},
+			{"shared-key-column", "inside-subquery", "SELECT q.o0 AS p0 FROM (SELECT a.id AS o0, b.v AS o1 FROM " + T + " a JOIN " + R + " b ON a.a = b.k WHERE a.a = b.v) q"},
+			{"shared-key-column", "under-group-by", "SELECT a.a AS o0, COUNT(*) AS o1 FROM " + T + " a JOIN " + R + " b ON a.a = b.k AND a.a = b.v GROUP BY a.a"},
+		}
+		for qi, q := range sk {
+			out = append(out, &tcase{
+				sql: q.sql, files: files, mode: []string{"json", "csv", "stream_native", "batch_table"}[(qi+rep)%4], procs: []int{1, 2, 16}[rng.Intn(3)],
+				shape: "directed-" + q.family, feat: []string{"directed/" + q.family + "/" + q.name, "directed-format/" + format},
+			})
 		}
 		for _, q := range sx {
 			out = append(out, &tcase{
